@@ -22,6 +22,8 @@ CHECKS.update({
                 design_ref="7 C10", note=NOTE_COMMON, technique=TECH),
     "C13": dict(text="The finish implementations of String/Cow::Owned/SmartString and of Cow::Borrowed are transcribed separately and TLC checks they coincide on the type universe; every parse case runs for String and SmallString and every build case / call sequence for String, Cow::Borrowed, Cow::Owned and SmallString, and the observed outcomes (acceptance, error, accessors, string) must be equal across them and to the specification's.",
                 design_ref="7 C13", note=NOTE_COMMON, technique=TECH),
+    "C11": dict(text="The collection is specified twice in TLA+: a reference map keyed by ASCII-lower-cased keys (QualMap) and the implementation-shaped sorted Vec with the binary search, comparator and entry API written out (QualVec); TLC checks the refinement (PROPERTY A!Spec under Abs), StrictlySorted and result equality for every reachable content x every operation over a universe with case variants, '_' next to letters, invalid keys, a Kelvin sign and empty values. Every edge of that state graph is executed on a real collection built in another insertion order and key case; simulated call sequences are replayed on one live object.",
+                design_ref="7 C11", note=NOTE_COMMON, technique=TECH),
 })
 NOT_YET = {}
 NOTES = ("All checks share one engine: ./check <ID> --tier quick|thorough. Exit 2 means the machinery failed and is never a verdict. "
